@@ -176,7 +176,23 @@ func ssh1Bytes(n, e *big.Int, comment string, cipher byte, r *rng) ([]byte, [][]
 	return b.Bytes(), [][]byte{d.Bytes(), p.Bytes(), q.Bytes()}
 }
 
+// genC02PgpSubkeys: OpenPGP key blocks whose SUBKEYS are of every algorithm / curve / odd size (the "pgp" operation checks
+// every listed key against the generator's record: algorithm, size, curve)
+func genC02PgpSubkeys(r *rng) {
+	fs := pgpKeyFactories()
+	for pi, c := range []elliptic.Curve{elliptic.P256(), elliptic.P384(), elliptic.P521()} {
+		primary := fs[pi%len(fs)](1700000000)
+		ek, _ := ecdsa.GenerateKey(c, rand.Reader)
+		subs := []pgpSubkey{{key: newECDHKeyOn(1700000100, c), flags: 0x0c, sigCreated: 1700000200, lifetime: -1},
+			{key: newECDSAKey(1700000300, ek), flags: 2, sigCreated: 1700000400, lifetime: -1},
+			{key: newECDHKey(1700000500, true, nil, r), flags: 0x0c, sigCreated: 1700000600, lifetime: -1}}
+		b := buildPGP(primary, []pgpIdentity{{name: "sub <s@x>", flags: 3, sigCreated: 1700000050, lifetime: -1}}, subs, false)
+		emit("pgp", append([]string{hx(b.binary), "G"}, b.gt...)...)
+	}
+}
+
 func genC02(tier string, r *rng) {
+	genC02PgpSubkeys(r)
 	comments := []string{"", "user@host", "a comment with spaces", "ünï@cödé", "#x"}
 	bitsList := []int{256, 511, 512, 513, 1023, 1024, 1025, 2047, 2048, 2049, 3071, 4095, 8192}
 	if tier == "thorough" {
@@ -329,6 +345,24 @@ func genC02(tier string, r *rng) {
 	emitKey(keyCase{"pkix", "k.der", edSpki, "ed25519", "", "", nil, nil, "ed25519", "PKIX public key"})
 	emitKey(keyCase{"pkcs8", "k.der", edP8, "ed25519", "", "", nil, edSec, "ed25519", "PKCS#8 private key"})
 	emitKey(keyCase{"pkcs8-pem", "k.key", pemWrap("PRIVATE KEY", edP8, false), "ed25519", "", "", nil, edSec, "ed25519", "PKCS#8 private key"})
+	// RFC 5958 OneAsymmetricKey: version 1 (v2) with the [1] publicKey field, with and without [0] attributes — what
+	// BouncyCastle and recent Java write
+	{
+		var p pkcs8T
+		if _, err := asn1.Unmarshal(edP8, &p); err == nil {
+			alg := mustMarshal(p.Algorithm)
+			pubField := xTLV(0x81, append([]byte{0}, edPub...))
+			attrs := xTLV(0xA0, xSeq(xOID(1, 2, 840, 113549, 1, 9, 9, 20), xSet(xStr(12, "friendly"))))
+			for vi, v2 := range [][]byte{
+				xSeq(xInt(1), alg, xTLV(0x04, p.PrivateKey), pubField),
+				xSeq(xInt(1), alg, xTLV(0x04, p.PrivateKey), attrs, pubField),
+				xSeq(xInt(0), alg, xTLV(0x04, p.PrivateKey), attrs),
+			} {
+				emitKey(keyCase{"pkcs8", "k.der", v2, "ed25519", "", "", nil, edSec, "ed25519", "PKCS#8 private key"})
+				emitKey(keyCase{"pkcs8-pem", "k.key", pemWrap("PRIVATE KEY", v2, vi == 1), "ed25519", "", "", nil, edSec, "ed25519", "PKCS#8 private key"})
+			}
+		}
+	}
 	if sp, err := ssh.NewPublicKey(edPub); err == nil {
 		line := strings.TrimSpace(string(ssh.MarshalAuthorizedKey(sp)))
 		emitKey(keyCase{"sshpub", "id_ed25519.pub", []byte(line + " me@box\n"), "ed25519", "", "me@box", []string{"Type=ssh-ed25519"}, nil, "ed25519", "SSH public key"})
